@@ -58,11 +58,11 @@ Lemma cmp6_ok a b : cmp6_m a b = cmp6_spec a b.
 Proof. unfold cmp6_m, cmp6_spec. rewrite Z.gtb_ltb, Z.geb_leb. reflexivity. Qed.
 
 (** * month: defined for every stored value 0..255, every delta *)
-Lemma month_ctor_ok m : 0 <= m <= 254 -> month_ctor_m m = Ok m.
+Lemma month_ctor_ok m : 0 <= m <= 255 -> month_ctor_m m = Ok m.
 Proof.
-  intros H. unfold month_ctor_m. destruct (m <? 255) eqn:E; [|lia]. rewrite wrapu8_small by lia. reflexivity.
+  intros H. unfold month_ctor_m. destruct (m <=? 255) eqn:E; [|lia]. rewrite wrapu8_small by lia. reflexivity.
 Qed.
-Lemma day_ctor_ok d : 0 <= d <= 254 -> day_ctor_m d = Ok d.
+Lemma day_ctor_ok d : 0 <= d <= 255 -> day_ctor_m d = Ok d.
 Proof. exact (month_ctor_ok d). Qed.
 
 Lemma month_ok_spec_ok m : month_ok_m m = month_ok_spec m.
@@ -114,35 +114,35 @@ Qed.
 Lemma day_ok_spec_ok d : 0 <= d <= 255 -> day_ok_m d = day_ok_spec d.
 Proof. intros H. unfold day_ok_m, day_ok_spec. lia. Qed.
 
-Lemma day_plus_ok d dd : 0 <= d <= 255 -> -2147483648 <= dd <= 2147483647 -> 0 <= d + dd <= 254 ->
+Lemma day_plus_ok d dd : 0 <= d <= 255 -> -2147483648 <= dd <= 2147483647 -> 0 <= d + dd <= 255 ->
   day_plus_m d dd = Ok (d + dd).
 Proof.
   intros Hd Hdd Hr. unfold day_plus_m.
   assert (E : u32w (d + u32w dd) = d + dd) by (unfold u32w; lia).
   rewrite E. apply day_ctor_ok. lia.
 Qed.
-Lemma day_minus_days_ok d dd : 0 <= d <= 255 -> -2147483648 <= dd <= 2147483647 -> 0 <= d - dd <= 254 ->
+Lemma day_minus_days_ok d dd : 0 <= d <= 255 -> -2147483648 <= dd <= 2147483647 -> 0 <= d - dd <= 255 ->
   day_minus_days_m d dd = Ok (d - dd).
 Proof.
   intros Hd Hdd Hr. unfold day_minus_days_m.
   assert (E : u32w (d - u32w dd) = d - dd) by (unfold u32w; lia).
   rewrite E. apply day_ctor_ok. lia.
 Qed.
-(* outside 0..254 the operator fires the constructor's precondition (never wraps silently) *)
-Lemma day_plus_contract d dd : 0 <= d <= 255 -> -2147483648 <= dd <= 2147483647 -> ~ (0 <= d + dd <= 254) ->
+(* outside 0..255 the operator fires the constructor's precondition (never wraps silently) *)
+Lemma day_plus_contract d dd : 0 <= d <= 255 -> -2147483648 <= dd <= 2147483647 -> ~ (0 <= d + dd <= 255) ->
   day_plus_m d dd = Contract.
 Proof.
   intros Hd Hdd Hr. unfold day_plus_m, day_ctor_m.
-  destruct (u32w (d + u32w dd) <? 255) eqn:E; [|reflexivity]. unfold u32w in E. lia.
+  destruct (u32w (d + u32w dd) <=? 255) eqn:E; [|reflexivity]. unfold u32w in E. lia.
 Qed.
 Lemma day_add_assign_ok d dd : 0 <= d <= 255 -> day_add_assign_m d dd = (d + dd) mod 256.
 Proof. intros Hd. unfold day_add_assign_m, wrapu. change (2 ^ 8) with 256. lia. Qed.
 Lemma day_sub_assign_ok d dd : 0 <= d <= 255 -> day_sub_assign_m d dd = (d - dd) mod 256.
 Proof. intros Hd. unfold day_sub_assign_m, wrapu. change (2 ^ 8) with 256. lia. Qed.
 
-(* the recorded defect KF-C11-day-month-ctor-255: 255 is a documented value of day / month *)
-Lemma day_ctor_255_refuted : exists d, 0 <= d <= 255 /\ day_ctor_m d <> Ok d /\ month_ctor_m d <> Ok d.
-Proof. exists 255. split; [lia|]. split; vm_compute; discriminate. Qed.
+(* values the stored type cannot hold are rejected (and only those) *)
+Lemma day_ctor_contract d : 255 < d -> day_ctor_m d = Contract /\ month_ctor_m d = Contract.
+Proof. intros H. unfold day_ctor_m, month_ctor_m. destruct (d <=? 255) eqn:E; [lia|]. split; reflexivity. Qed.
 
 (** * weekday, weekday_indexed, weekday_last *)
 Lemma weekday_ok_spec_ok w : 0 <= w <= 255 -> weekday_ok_m w = weekday_ok_spec w.
